@@ -460,6 +460,14 @@ fn chain(obs: &mut Obs, rng: &mut Rng, b0: &[u8], fmt_k: u64, how: &dyn Fn() -> 
         // warning is NotReallySevenBitSafe. Deviation model (own reader): PLtoTF's analysis (first step per right-hand
         // character wins, boundary character, left-boundary program) says safe, the simplified analysis says unsafe.
         if w1.len() == 1 && variant_name(&w1[0].kind) == "NotReallySevenBitSafe" {
+            // A font that carries the flag but is NOT seven-bit safe (own judgement) draws this warning from PLtoTF too:
+            // TFtoPL does not look at the flag, PLtoTF does - such a font is outside the quantifier ("warning-free" has to
+            // hold for the whole trip). Only a font that IS safe must keep the flag without a warning.
+            if let Ok(r) = RawFont::parse(b0) {
+                if r.header.len() >= 18 && r.header[17][0] >= 128 && r.seven_bit_safe_by(true) != Some(true) {
+                    return ChainResult::Skipped("b0-flagged-seven-bit-safe-but-is-not(own-judgement)".into());
+                }
+            }
             if let Ok(r) = RawFont::parse(b0) {
                 if r.header.len() >= 18 && r.header[17][0] >= 128 && r.seven_bit_safe_by(true) == Some(true) && r.seven_bit_safe_by(false) == Some(false) {
                     obs.known("C11-seven-bit-safety-analysis-simplified", witness(json!({"pl1": clip(&pl1, 3000)})));
